@@ -46,7 +46,7 @@ def run(ctx):
     q = ctx.quick
     # design level 1: with a registry that refuses ids containing ':' the key layout separates tenants under a
     # prefix-bounded scan: point lookups, scans and the listing computed over the ordered key space are exact
-    ctx.tlc_gen("MC_KvTenants", GEN.format(ids="{1, 2}", names="NamesFull", maxt=3, maxw=3 if q else 4, reject="TRUE", emit="", inv=DESIGN_INV),
+    ctx.tlc_gen("MC_KvTenants", GEN.format(ids="{1, 2}", names="NamesFull", maxt=3, maxw=2 if q else 4, reject="TRUE", emit="", inv=DESIGN_INV),
                 "design-rejectsep", workers=4, timeout=2400)
     # self-tests: (a) seek-and-run-to-the-end scan mixes tenants even without separators in ids,
     # (b) a prefix-bounded scan still mixes tenants when ids may contain the separator
@@ -54,17 +54,17 @@ def run(ctx):
                 "legacy-scan-selftest", expect_violation=True, workers=4)
     ctx.tlc_gen("MC_KvTenants", GEN.format(ids="{1}", names="NamesFull", maxt=2, maxw=2, reject="FALSE", emit="", inv="NoMixingScan NoMixingList"),
                 "separator-selftest", expect_violation=True, workers=4)
-    # scripts: every pair of candidate ids x every interleaving of <= 3/4 writes (one script per transition of the
+    # scripts: every pair of candidate ids x every interleaving of <= 2/4 writes (one script per transition of the
     # abstract state graph); the registry of the model accepts everything so that every write is attempted
-    scripts = ctx.tlc_gen("MC_KvTenants", GEN.format(ids="{1}", names="NamesFull", maxt=2, maxw=3 if q else 4, reject="FALSE",
+    scripts = ctx.tlc_gen("MC_KvTenants", GEN.format(ids="{1}", names="NamesFull", maxt=2, maxw=2 if q else 4, reject="FALSE",
                                                       emit="ACTION_CONSTRAINT EmitWrites", inv=""),
                           "pairs", workers=4, timeout=2400)
     # triples over the names that are prefixes of one another / adjacent in byte order / contain the separator
-    scripts += ctx.tlc_gen("MC_KvTenants", GEN.format(ids="{1}", names="NamesCore", maxt=3, maxw=2 if q else 4, reject="FALSE",
+    scripts += ctx.tlc_gen("MC_KvTenants", GEN.format(ids="{1}", names="NamesCore", maxt=3, maxw=2 if q else 3, reject="FALSE",
                                                        emit="ACTION_CONSTRAINT EmitWrites", inv=""),
                            "triples", workers=4, timeout=2400)
     # two ids per tenant (id order inside a tenant's key range) on separator-free names
-    scripts += ctx.tlc_gen("MC_KvTenants", GEN.format(ids="{1, 2}", names="NamesPlain", maxt=2, maxw=3 if q else 4, reject="FALSE",
+    scripts += ctx.tlc_gen("MC_KvTenants", GEN.format(ids="{1, 2}", names="NamesPlain", maxt=2, maxw=2 if q else 3, reject="FALSE",
                                                        emit="ACTION_CONSTRAINT EmitWrites", inv=DESIGN_INV),
                            "plain2ids", workers=4, timeout=2400)
     ctx.assume("tenant ids the system accepts = ids for which TenantManager::create_tenant returns Ok; writes reach the store "
